@@ -26,3 +26,31 @@ package predicates
 //@   pure
 //@   ensures result == skipped(sp, podID, predicateName)
 //@ end
+
+// ---- C04/C02: pod-count limit including the GPU-group reservation pod ------------------------------
+// pod slots still available on the node for this cycle: idle + releasing "pods" resource
+//@ define podSlots(node *node_info.NodeInfo) real = real(node.Idle.scalarResources["pods"]) + real(node.Releasing.scalarResources["pods"])
+// the task asks for a shared GPU (fraction or gpu-memory request)
+//@ define sharedReq(task *pod_info.PodInfo) bool = task.ResourceRequestType == pod_info.RequestTypeFraction || task.ResourceRequestType == pod_info.RequestTypeGpuMemory
+
+// newGpuGroup(task, node) NAMES the answer of willCreateNewGpuGroup for this (task, node) in the
+// state in which checkMaxPodsWithGpuGroupReservation asks (it is asked once per evaluation).
+//@ declare newGpuGroup(task *pod_info.PodInfo, node *node_info.NodeInfo) bool
+
+//@ func (*predicatesPlugin).willCreateNewGpuGroup
+//@   props C04
+//@   trusted
+//@   note naming device, not a behavioural assumption: the body calls Session.FittingGPUs (plugin callbacks through function values, outside the subset) and gpu_sharing.GetNodePreferableGpuForSharing; its boolean answer is given the name newGpuGroup(task, node). Treated as read-only (it only ranks GPUs).
+//@   pure
+//@   ensures result == newGpuGroup(task, node)
+//@ end
+
+// C04 (max pods): a placement is accepted only if the node still has a pod slot for the task, and TWO
+// slots when a shared-GPU task needs a new GPU group (the reservation pod takes one).
+//@ func (*predicatesPlugin).checkMaxPodsWithGpuGroupReservation
+//@   props C04
+//@   requires pp != nil && task != nil && node != nil && node.Idle != nil && node.Releasing != nil
+//@   ensures [maxPods] (result == nil) == ite(!sharedReq(task), podSlots(node) > 0.0, !newGpuGroup(task, node) || podSlots(node) >= 2.0)
+//@   ensures [oneSlotForWholeGpuTask] result == nil && !sharedReq(task) ==> podSlots(node) > 0.0
+//@   ensures [twoSlotsForNewGroup] result == nil && sharedReq(task) && newGpuGroup(task, node) ==> podSlots(node) >= 2.0
+//@ end
